@@ -176,49 +176,7 @@ def run(check, an: Analysis):
                    where_fn(aexit.fn), 'for its own interrupt the block ends without '
                    'raising (%d such paths)' % len(silent), analysed=len(summ.paths))
     # ---- I ------------------------------------------------------------------
-    generic = an.method(CONDITION, '__subscribe__')
-    for qn in c08.condition_classes(an):
-        if qn in (CONDITION, c08.CONNECTIVE) or qn in c01.SUBSCRIBE_TABLE:
-            continue
-        method = an.p.find_method(qn, '__subscribe__')
-        label = qn.rsplit('.', 1)[-1]
-        if method is not generic:
-            raise AnalysisError('%s overrides __subscribe__: needs review' % qn)
-        callee = Callee(method, qn)
-        verdict, n = True, 0
-        bad = None
-        for path in an.paths(callee):
-            if not path.normal:
-                continue
-            n += 1
-            holds = [e for e in path.events if e.kind == 'test'
-                     and e.get('key') == ('truth', 'self')]
-            sched = [e for e in path.events if is_call_to(e, 'schedule')]
-            parked = any(is_call_to(e, '__subscribe__', NOTIFICATION) for e in path.events)
-            if holds and key_truth(holds[0]):
-                undated = bool(sched) and not any(
-                    kw.arg in ('delay', 'at') for kw in sched[0].node.keywords)
-                marked = any(e.kind == 'store' and e['path'] == 'interrupt.scheduled'
-                             for e in path.events)
-                ok = undated and not parked and (marked or True)
-            else:
-                ok = bool(holds) and parked and not sched
-            if not ok:
-                verdict = False
-                bad = bad or path
-        check.instance('I', 'subscribe:%s' % label, verdict and n >= 2, where_fn(method),
-                       'notified at once (undated) iff the condition holds, else parked '
-                       '(%d paths)' % n, path=rules.path_lines(bad) if bad else None,
-                       analysed=n)
-    c01.check_subscribe_table(check, an, rule='I')
-    delay_sub = an.callee(c01.DELAY, '__subscribe__')
-    for path in an.paths(delay_sub):
-        sched = [e for e in path.events if is_call_to(e, 'schedule')]
-        ok = len(sched) == 1 and {kw.arg: ast.unparse(kw.value)
-                                  for kw in sched[0].node.keywords} == {
-            'delay': 'self.duration'}
-        check.instance('I', 'subscribe:Delay', ok and path.normal, where_fn(delay_sub.fn),
-                       'notified after the delay\'s own duration')
+    check_immediacy(check, an, 'I')
     check.floor('I', 20)
     # ---- C ------------------------------------------------------------------
     c08._check_trigger_coverage(check, an, c08.condition_classes(an))
@@ -276,6 +234,53 @@ def run(check, an: Analysis):
     check.instance('R', 'run:single-root', ok, where_fn(run_fn),
                    'the loop receives exactly the one root activity')
     check.stats.update(an.stats())
+
+
+def check_immediacy(check, an: Analysis, rule: str):
+    """a subscriber is notified at once exactly when the condition holds (no spin, no miss)"""
+    generic = an.method(CONDITION, '__subscribe__')
+    for qn in c08.condition_classes(an):
+        if qn in (CONDITION, c08.CONNECTIVE) or qn in c01.SUBSCRIBE_TABLE:
+            continue
+        method = an.p.find_method(qn, '__subscribe__')
+        label = qn.rsplit('.', 1)[-1]
+        if method is not generic:
+            raise AnalysisError('%s overrides __subscribe__: needs review' % qn)
+        callee = Callee(method, qn)
+        verdict, n = True, 0
+        bad = None
+        for path in an.paths(callee):
+            if not path.normal:
+                continue
+            n += 1
+            holds = [e for e in path.events if e.kind == 'test'
+                     and e.get('key') == ('truth', 'self')]
+            sched = [e for e in path.events if is_call_to(e, 'schedule')]
+            parked = any(is_call_to(e, '__subscribe__', NOTIFICATION) for e in path.events)
+            if holds and key_truth(holds[0]):
+                undated = bool(sched) and not any(
+                    kw.arg in ('delay', 'at') for kw in sched[0].node.keywords)
+                marked = any(e.kind == 'store' and e['path'] == 'interrupt.scheduled'
+                             for e in path.events)
+                ok = undated and not parked and (marked or True)
+            else:
+                ok = bool(holds) and parked and not sched
+            if not ok:
+                verdict = False
+                bad = bad or path
+        check.instance(rule, 'subscribe:%s' % label, verdict and n >= 2, where_fn(method),
+                       'notified at once (undated) iff the condition holds, else parked '
+                       '(%d paths)' % n, path=rules.path_lines(bad) if bad else None,
+                       analysed=n)
+    c01.check_subscribe_table(check, an, rule=rule)
+    delay_sub = an.callee(c01.DELAY, '__subscribe__')
+    for path in an.paths(delay_sub):
+        sched = [e for e in path.events if is_call_to(e, 'schedule')]
+        ok = len(sched) == 1 and {kw.arg: ast.unparse(kw.value)
+                                  for kw in sched[0].node.keywords} == {
+            'delay': 'self.duration'}
+        check.instance(rule, 'subscribe:Delay', ok and path.normal, where_fn(delay_sub.fn),
+                       'notified after the delay\'s own duration')
 
 
 def _or_atoms(expr):
